@@ -548,7 +548,7 @@ fn fold_operations(expr: Expr) -> Expr {
                 // _^0 = 1 & 0^_ = 0
                 // Note: Above condition includes 0^0
                 (Operators::Caret, _, Expr::Number(0.)) => Expr::Number(1.),
-                (Operators::Caret, Expr::Number(0.), _) => Expr::Number(0.),
+                (Operators::Caret, Expr::Number(0.), Expr::Number(n)) if n > 0. => Expr::Number(0.),
 
                 // x+0 = x
                 (Operators::Add, Expr::Number(0.), r) => r,
